@@ -191,7 +191,9 @@ Definition xinline_case (c : xcase) : scase :=
      sc_phases' := xi_phases' c; sc_rv' := xi_rv' c; sc_uid' := xi_uid' c |}.
 Definition xagree_inline (c : xcase) : bool := SetCorr.agree (xinline_case c).
 
-(** The property: provided every slice the ObjectSet references exists, the sliced run equals the inline
+(** The property: provided every slice the ObjectSet references exists - or the ObjectSet is being deleted / archived,
+    where a slice that is gone is skipped by design and the twin carries the objects of the slices that exist -
+    the sliced run equals the inline
     run after erasing the slice requests: same requests on members and on the ObjectSet (finalizer, status
     with revision, conditions, controllerOf, remote phases; requests on ObjectSetPhase objects of delegated
     phases), same result, same final member store, same final ObjectSets (with the slices inlined), same
@@ -207,7 +209,7 @@ Definition xmonitor (c : xcase) : bool :=
   match find_set (xc_sets c) (xc_kind c) (xc_ns c) (xc_name c) with
   | None => true
   | Some mem =>
-      negb (slices_exist (xc_slices c) (xc_refs c) mem) || xfault_hits c ||
+      (negb (slices_exist (xc_slices c) (xc_refs c) mem) && negb (is_going mem)) || xfault_hits c ||
       (list_eqb sev_eqb (erase_slice_events (xs_events c)) (xi_events c) && sres_eqb (xs_res c) (xi_res c) &&
        store_eqb (xs_post c) (xi_post c) &&
        list_eqb oset_eqb (map (inline_set (xs_slices' c) (xc_refs c)) (xs_sets' c)) (xi_sets' c) &&
@@ -356,7 +358,7 @@ Qed.
 
 Lemma xmonitor_of_equiv fixed force x kind ns name x' evs r :
   (forall mem, find_set (sw_sets (xw_sw x)) kind ns name = Some mem ->
-               slices_exist (xs_store (xw_sl x)) (xw_refs x) mem = true ->
+               slices_exist (xs_store (xw_sl x)) (xw_refs x) mem = true \/ is_going mem = true ->
                objectset_pass force (inline_of x) kind ns name = (inline_of x', erase_slice_events evs, r) /\
                xw_refs x' = xw_refs x) ->
   xmonitor (xcase_of fixed force x kind ns name (x', evs, r) (objectset_pass force (inline_of x) kind ns name)) = true.
@@ -367,12 +369,15 @@ Proof.
   cbn [xc_sets xc_kind xc_ns xc_name xc_slices xc_refs xs_events xi_events xs_res xi_res xs_post xi_post xs_slices' xs_sets' xi_sets' xs_phases' xi_phases'
        xs_rv' xi_rv' xs_uid' xi_uid'].
   destruct (find_set (sw_sets (xw_sw x)) kind ns name) as [mem|] eqn:Hf; [|reflexivity].
-  destruct (slices_exist (xs_store (xw_sl x)) (xw_refs x) mem) eqn:Hex; [|reflexivity]. cbn [negb orb].
-  destruct (H mem eq_refl Hex) as [Heq Hrefs]. injection Heq as -> -> ->.
-  unfold inline_of, inline_sw. cbn [sw_w sw_sets]. rewrite Hrefs.
-  now rewrite (list_eqb_refl sev_eqb sev_eqb_refl), sres_eqb_refl, store_eqb_refl, (list_eqb_refl oset_eqb oset_eqb_refl),
-    (list_eqb_refl osphase_eqb osphase_eqb_refl), !N.eqb_refl.
+  specialize (H mem eq_refl).
+  destruct (slices_exist (xs_store (xw_sl x)) (xw_refs x) mem) eqn:Hex; [|destruct (is_going mem) eqn:Hg; [|reflexivity]].
+  1: destruct (H (or_introl eq_refl)) as [Heq Hrefs]. 2: destruct (H (or_intror eq_refl)) as [Heq Hrefs].
+  all: cbn [negb orb andb]; injection Heq as -> -> ->;
+    unfold inline_of, inline_sw; cbn [sw_w sw_sets]; rewrite Hrefs;
+    now rewrite (list_eqb_refl sev_eqb sev_eqb_refl), sres_eqb_refl, store_eqb_refl, (list_eqb_refl oset_eqb oset_eqb_refl),
+      (list_eqb_refl osphase_eqb osphase_eqb_refl), !N.eqb_refl.
 Qed.
+
 
 (** For the repair candidate the monitor accepts every pass, in every lifecycle state ... *)
 Theorem xmonitor_sound_fixed force x kind ns name :
@@ -381,7 +386,10 @@ Theorem xmonitor_sound_fixed force x kind ns name :
 Proof.
   destruct (sliced_pass_fixed force x kind ns name) as [[x' evs] r] eqn:E.
   apply xmonitor_of_equiv. intros mem Hf Hex.
-  destruct (sliced_fixed_equiv force x kind ns name mem x' evs r Hf Hex E) as (H1 & H2 & _). auto.
+  destruct (is_going mem) eqn:Hg.
+  - destruct (sliced_fixed_equiv_teardown force x kind ns name mem x' evs r Hf Hg E) as (H1 & H2 & _). auto.
+  - destruct Hex as [Hex|Hex]; [|discriminate].
+    destruct (sliced_fixed_equiv force x kind ns name mem x' evs r Hf Hex E) as (H1 & H2 & _). auto.
 Qed.
 
 (** ... for the pass as it is, every pass on an ObjectSet that is not being deleted or archived. *)
@@ -396,6 +404,7 @@ Proof.
   assert (Hg : is_going mem = false).
   { unfold xgoing, xcase_of, xcase_of_f in Hgo. destruct (objectset_pass force (inline_of x) kind ns name) as [[a b] c0].
     cbn [xc_sets xc_kind xc_ns xc_name] in Hgo. now rewrite Hf in Hgo. }
+  destruct Hex as [Hex|Hex]; [|congruence].
   destruct (sliced_equiv_active force x kind ns name mem x' evs r Hf Hg Hex E) as (H1 & H2 & _). auto.
 Qed.
 
@@ -465,4 +474,66 @@ Proof.
   unfold fault_hits in Hh. apply andb_true_iff in Hh. destruct Hh as [Hfin Hi].
   destruct fault as [i|]; [|discriminate]. cbn [option_map] in *. apply Nat.ltb_lt in Hi.
   rewrite (teardown_read_fault_inert force _ x kind ns name mem Hf Hg Hfin Hi) in E. injection E as <- <- <-. reflexivity.
+Qed.
+
+(** * The ObjectDeployment controller's view of a sliced revision (harness mode "sliceobjects") *)
+From Coq Require Import Permutation.
+
+Record ocase := {
+  oc_set : oset;                 (* as stored: inline objects only *)
+  oc_refs : list (list N);       (* its slice names per phase *)
+  oc_slices : slstore;
+  (* observation *)
+  oc_err : bool;                 (* getObjectsIncludingSlices returned an error *)
+  oc_keys : list okey;           (* the identifiers it returned for the sliced ObjectSet *)
+  oc_inline : list okey          (* ... and for the twin with the objects inline *)
+}.
+
+Definition oc_tbl (c : ocase) : refs_tbl :=
+  [(oi_kind (os_id (oc_set c)), oi_ns (os_id (oc_set c)), oi_name (os_id (oc_set c)), oc_refs c)].
+
+Definition oagree (c : ocase) : bool :=
+  match deploy_objects (oc_slices c) (oc_tbl c) (oc_set c) with
+  | Some l => negb (oc_err c) && list_eqb okey_eqb l (oc_keys c)
+  | None => oc_err c
+  end &&
+  let i := inline_set (oc_slices c) (oc_tbl c) (oc_set c) in
+  list_eqb okey_eqb (map (spec_key i) (all_objects i)) (oc_inline c).
+
+Definition kcount (k : okey) (l : list okey) : nat := length (filter (okey_eqb k) l).
+Definition keys_permb (a b : list okey) : bool := forallb (fun k => Nat.eqb (kcount k a) (kcount k b)) (a ++ b).
+
+(** If every referenced slice exists, the archive reconciler sees the same objects (as a multiset) for the sliced
+    ObjectSet as for the ObjectSet with the objects inline; if one cannot be read it does not produce a view at all
+    (the objects of the revision are not known; the decision must not be taken on a partial list). *)
+Definition omonitor (c : ocase) : bool :=
+  if slices_exist (oc_slices c) (oc_tbl c) (oc_set c)
+  then negb (oc_err c) && keys_permb (oc_keys c) (oc_inline c)
+  else oc_err c.
+
+Definition ojudge (c : ocase) : bool * bool := (oagree c, omonitor c).
+
+Lemma kcount_perm k a b : Permutation a b -> kcount k a = kcount k b.
+Proof.
+  unfold kcount. induction 1 as [|x a b _ IH|x y a|a b c0 _ IH1 _ IH2]; cbn; try reflexivity.
+  - destruct (okey_eqb k x); cbn; now rewrite IH.
+  - destruct (okey_eqb k y), (okey_eqb k x); reflexivity.
+  - now rewrite IH1.
+Qed.
+
+Lemma keys_permb_of a b : Permutation a b -> keys_permb a b = true.
+Proof. intros H. unfold keys_permb. apply forallb_forall. intros k _. apply Nat.eqb_eq. now apply kcount_perm. Qed.
+
+Theorem omonitor_sound s refs slices :
+  let t := [(oi_kind (os_id s), oi_ns (os_id s), oi_name (os_id s), refs)] in
+  omonitor {| oc_set := s; oc_refs := refs; oc_slices := slices;
+              oc_err := match deploy_objects slices t s with Some _ => false | None => true end;
+              oc_keys := match deploy_objects slices t s with Some l => l | None => [] end;
+              oc_inline := map (spec_key (inline_set slices t s)) (all_objects (inline_set slices t s)) |} = true.
+Proof.
+  intros t. unfold omonitor, oc_tbl. cbn [oc_slices oc_set oc_refs oc_err oc_keys oc_inline]. fold t.
+  destruct (deploy_objects slices t s) as [l|] eqn:H.
+  - pose proof (deploy_objects_inline _ _ _ _ H) as Hp. unfold deploy_objects in H.
+    destruct (slices_exist slices t s); [|discriminate]. cbn [negb andb]. now apply keys_permb_of.
+  - apply deploy_objects_none in H. now rewrite H.
 Qed.
